@@ -16,8 +16,9 @@ CLAIMED = {
         "ascending database, pairwise disjoint roots in any order (C01_complete, by refinement to the abstract "
         "(root,cursor) loop); nothing outside the roots, nothing twice, order independence for ANY agent; single root "
         "strictly ascending for ANY agent; the model is tied to the code by end-to-end trace correspondence (small scope "
-        "+ random incl. usmStats subtrees, v2c/v3; big tables of 10^4+ instances judged by the oracle) and unit-level "
-        "correspondence of group_varbinds / get_unfinished_walk_oids / deduped_varbinds",
+        "+ random incl. usmStats subtrees, v2c/v3; big tables of 10^4+ instances judged by the oracle; volatile agents whose "
+        "objects are evaluated once per binding) and unit-level correspondence of group_varbinds / get_unfinished_walk_oids / "
+        "deduped_varbinds",
         "the theorems are about the model; the tie to raw.py/util.py is the trace correspondence (sampled); conformant agent semantics are spec-side definitions; codec / v3 framing are C05/C06/C09-C11",
     ),
     "C02": (
@@ -68,8 +69,12 @@ CLAIMED = {
         "bindings, PDUs with their four-TLV reader, message wrappers, header, USM block, scoped PDU) in every mix of length "
         "forms decode to the tree of the same shape (C06_tree_decode, induction over the structure and the decode_raw loop); "
         "unsigned classes never negative; integer / OID codec round trips for all integers and all OIDs of the domain; "
-        "re-encoded TLVs read as the same content. The mirror is tied to x690 / puresnmp by tree correspondence on all five "
-        "structures and by re-encoding checks against the independent reader",
+        "re-encoding: bytes() of a decoded object keeps the content octets (C06_reencode_value); bytes(X.decode(d)) for the USM "
+        "parameter block, the scoped PDU and the whole SNMPv3 message (plain and encrypted), for every well-formed d in any mix of "
+        "length forms, is the structure of the same contents under encode_length's forms, and decoding it yields the same field "
+        "values (C06_reencode_usm / _scoped / _message_encrypted / _message_plain, C06_reencoded_fields; Model/Reenc). The mirror "
+        "is tied to x690 / puresnmp by tree correspondence on all five structures, by octet-exact correspondence of the three "
+        "decode+bytes paths (well-formed and malformed stream) and by re-encoding checks against the independent reader",
         "partial: OID content starting with an octet < 120 — outside it (arc0 = 2, arc1 >= 40) the statement is proved false "
         "(x690 splits the first sub-identifier with // 40, % 40) and recorded as a known finding of the dependency; unsigned "
         "application integers in proper non-negative encoding for equality with the RFC value; the theorems are about the Lean "
@@ -133,9 +138,10 @@ CLAIMED = {
         "discovered engine id (security and default context engine id); refused discovery replies (foreign msg id / no bindings) "
         "cache nothing; from ANY state (after any history of requests, clock advances, agent reboots, refused replies) a "
         "request by an authenticated user ends with a request inside the agent's 150 s window (C12_in_window), with at most "
-        "one out-of-window attempt per operation; without reboots every datagram is within 1 s of the agent's time; tied by "
-        "histories on a shared virtual time line (wire trace + agent verdict per datagram)",
-        "no clock drift between client and agent; engine-time wrap at 2^31 and time passing during one operation not modelled",
+        "one out-of-window attempt per operation; without reboots every datagram is within 1 s of the agent's time; a discovery "
+        "exchange that takes any amount of time leaves the operation inside the window (C12_slow_discovery_in_window); tied by "
+        "histories on a shared virtual time line (wire trace + agent verdict per datagram; slow discoveries of 0.3 s .. 200 s)",
+        "no clock drift between client and agent; engine-time wrap at 2^31 and time passing during the request exchange itself not modelled",
     ),
     "C13": (
         "proof (partial): for every outcome sequence, retries and timeout: <= retries identical transmissions, first reply inside "
@@ -218,9 +224,10 @@ CLAIMED = {
         "discovered engine id (security and default context engine id); refused discovery replies (foreign msg id / no bindings) "
         "cache nothing; from ANY state (after any history of requests, clock advances, agent reboots, refused replies) a "
         "request by an authenticated user ends with a request inside the agent's 150 s window (C12_in_window), with at most "
-        "one out-of-window attempt per operation; without reboots every datagram is within 1 s of the agent's time; tied by "
-        "histories on a shared virtual time line (wire trace + agent verdict per datagram)",
-        "no clock drift between client and agent; engine-time wrap at 2^31 and time passing during one operation not modelled",
+        "one out-of-window attempt per operation; without reboots every datagram is within 1 s of the agent's time; a discovery "
+        "exchange that takes any amount of time leaves the operation inside the window (C12_slow_discovery_in_window); tied by "
+        "histories on a shared virtual time line (wire trace + agent verdict per datagram; slow discoveries of 0.3 s .. 200 s)",
+        "no clock drift between client and agent; engine-time wrap at 2^31 and time passing during the request exchange itself not modelled",
     ),
     "C13": (
         "proof (partial): for every outcome sequence, retries and timeout: <= retries identical transmissions, first reply inside "
